@@ -159,6 +159,9 @@ int main(int argc, char **argv)
                     q.ops[kv.first].strategy = sim::ST_REPLAY;
                     q.ops[kv.first].schedule = kv.second;
                 }
+            for (auto &kv : r.recorded2)
+                if (kv.first >= 0 && kv.first < (int)q.ops.size())
+                    q.ops[kv.first].schedule2 = kv.second;
             out.set("explicit_plan", q.to_json());
             out.set("recorded_truncated", js::Value::Bool(r.recorded_truncated));
         }
